@@ -96,10 +96,10 @@ impl Lexer {
     /// Check if the given character is whitespace, excluding newlines.
     ///
     /// This function will return true if the current character is a space,
-    /// tab, or comma. Newlines are not considered whitespace as it is a
-    /// token in the lexer.
+    /// tab, comma or carriage return. Newlines are not considered whitespace
+    /// as it is a token in the lexer.
     fn is_ws(ch: char) -> bool {
-        ch == ' ' || ch == '\t' || ch == ','
+        ch == ' ' || ch == '\t' || ch == ',' || ch == '\r'
     }
 
     /// Check if the given character is a character usable in a symbol.
@@ -244,6 +244,23 @@ impl Lexer {
         ))
     }
 
+    /// Skip the remainder of an invalid string or character literal.
+    ///
+    /// Everything up to and including the closing `quote` is consumed, but
+    /// never a newline, so that one bad literal gives one error and the rest
+    /// of the line is still lexed.
+    fn skip_invalid_literal(&mut self, quote: char) {
+        while let Some(current) = self.current() {
+            if current == '\n' {
+                break;
+            }
+            self.consume_char();
+            if current == quote {
+                break;
+            }
+        }
+    }
+
     /// Create the error for an invalid string.
     fn invalid_string(
         &self,
@@ -328,8 +345,14 @@ impl Iterator for Lexer {
                 let end = self.get_pos();
                 self.consume_char();
 
+                // A lone '.' is not a directive
                 if dir_str == "." {
-                    return self.next();
+                    return Some(Err(LexError::UnexpectedToken(Box::new(Token::new(
+                        TokenType::Directive(dir_str.clone()),
+                        dir_str,
+                        Range::new(start, end),
+                        self.source_id,
+                    )))));
                 }
 
                 Some(Token::new(
@@ -376,6 +399,9 @@ impl Iterator for Lexer {
                 let string_str = match self.acc_string() {
                     Ok(s) => s,
                     Err(e) => {
+                        if e.kind == StringLexErrorType::InvalidEscapeSequence {
+                            self.skip_invalid_literal('"');
+                        }
                         return Some(Err(LexError::InvalidString(
                             Box::new(Token::new(
                                 TokenType::String(String::new()),
@@ -390,7 +416,6 @@ impl Iterator for Lexer {
 
                 let end = self.get_pos();
                 self.consume_char(); // Skip final '"'
-                self.consume_char();
 
                 Some(Token::new(
                     TokenType::String(string_str.clone()),
@@ -410,12 +435,14 @@ impl Iterator for Lexer {
                         '\\' => match self.escape_code() {
                             Some(ec) => ec,
                             None => {
+                                let end = self.get_pos();
+                                self.skip_invalid_literal('\'');
                                 return Some(self.invalid_string(
                                     c.to_string(),
                                     StringLexErrorType::InvalidEscapeSequence,
                                     start,
-                                    self.get_pos(),
-                                ))
+                                    end,
+                                ));
                             }
                         },
                         // Can't have a literal newline in a character
@@ -471,10 +498,18 @@ impl Iterator for Lexer {
                 let start = self.get_pos();
                 let mut symbol_str: String = String::new();
 
-                // If the first character is not a symbol char -> error
+                // If the first character is not a symbol char -> error. The
+                // character is consumed, so lexing continues after it.
                 if let Some(current) = self.current() {
                     if !Self::is_symbol_item(current) {
-                        return None;
+                        let pos = self.get_range();
+                        self.consume_char();
+                        return Some(Err(LexError::UnexpectedToken(Box::new(Token::new(
+                            TokenType::Symbol(current.to_string()),
+                            current.to_string(),
+                            pos,
+                            self.source_id,
+                        )))));
                     }
                 }
 
